@@ -200,6 +200,19 @@ def run_monitor(mon):
         toks = line.split()
         if not toks:
             continue
+        if toks[0][0] == "#":
+            if toks[0] == "#sweep":
+                # summary of an exhaustive in-driver sweep: how many patterns were executed
+                kv = dict(t.split("=", 1) for t in toks[2:] if "=" in t)
+                ex = mon.st.extra
+                ex["sweep_patterns_executed"] = ex.get("sweep_patterns_executed", 0) + int(kv.get("scanned", 0))
+                ex["sweep_events_logged_for_exact_oracle"] = ex.get("sweep_events_logged_for_exact_oracle", 0) + int(kv.get("logged", 0))
+                d = ex.setdefault("sweep_per_function", {})
+                k = "%s/%s" % (toks[1], kv.get("ty", "?"))
+                d[k] = d.get(k, 0) + int(kv.get("scanned", 0))
+                mi = ex.setdefault("max_sweep_iterations", {})
+                mi[k] = max(mi.get(k, 0), int(kv.get("max_iterations", 0)))
+            continue
         try:
             ev(line, toks)
         except Exception as e:  # a monitor bug or a malformed line is not a verdict
